@@ -94,6 +94,78 @@ struct Case {
     h2: Vec<H2Req>,
     /// the streams are opened at once (else one after the other)
     h2_concurrent: bool,
+    /// a request body on the HTTP/1.1 handshake
+    body: Option<BodySpec>,
+}
+
+/// A request body on the handshake.  The harness adds the framing fields
+/// after the case's header lines.
+#[derive(Clone, Debug)]
+struct BodySpec {
+    /// false: `Content-Length: len`; true: `Transfer-Encoding: chunked`
+    chunked: bool,
+    /// body bytes (produced from the case's `pseed`)
+    len: usize,
+    /// chunked: the chunk sizes (the rest, if any, is a last chunk)
+    chunks: Vec<usize>,
+    /// chunked: a trailer section after the last chunk
+    trailers: bool,
+    /// `Expect: 100-continue` (the body is sent without waiting)
+    expect: bool,
+    /// the body goes in the same write as the request head (else in the next)
+    same_write: bool,
+}
+
+impl BodySpec {
+    fn framing(&self) -> Vec<(Vec<u8>, Vec<u8>)> {
+        let mut v = vec![];
+        if self.chunked {
+            v.push(h("Transfer-Encoding", " chunked"));
+            if self.trailers {
+                v.push(h("Trailer", " X-Checksum"));
+            }
+        } else {
+            v.push((b"Content-Length".to_vec(), format!(" {}", self.len).into_bytes()));
+        }
+        if self.expect {
+            v.push(h("Expect", " 100-continue"));
+        }
+        v
+    }
+    fn bytes(&self, pseed: u64) -> Vec<u8> {
+        let mut r = Rng::new(pseed ^ 0xb0d1_b0d1);
+        (0..self.len).map(|_| (r.next() >> 24) as u8).collect()
+    }
+    /// the body as it goes on the wire
+    fn wire(&self, pseed: u64) -> Vec<u8> {
+        let b = self.bytes(pseed);
+        if !self.chunked {
+            return b;
+        }
+        let mut v = vec![];
+        let mut i = 0;
+        for &n in &self.chunks {
+            if i >= b.len() {
+                break;
+            }
+            let n = n.max(1).min(b.len() - i);
+            v.extend_from_slice(format!("{:x}\r\n", n).as_bytes());
+            v.extend_from_slice(&b[i..i + n]);
+            v.extend_from_slice(b"\r\n");
+            i += n;
+        }
+        if i < b.len() {
+            v.extend_from_slice(format!("{:X}\r\n", b.len() - i).as_bytes());
+            v.extend_from_slice(&b[i..]);
+            v.extend_from_slice(b"\r\n");
+        }
+        v.extend_from_slice(b"0\r\n");
+        if self.trailers {
+            v.extend_from_slice(b"X-Checksum: abc\r\n");
+        }
+        v.extend_from_slice(b"\r\n");
+        v
+    }
 }
 
 #[derive(Clone, Debug)]
@@ -115,6 +187,9 @@ impl Case {
                 "headers": q.headers.iter().map(|(n, v)| json!([lat1(n), lat1(v)])).collect::<Vec<_>>(),
                 "body": q.body})).collect::<Vec<_>>(),
             "h2_concurrent": self.h2_concurrent,
+            "body": self.body.as_ref().map(|b| json!({
+                "chunked": b.chunked, "len": b.len, "chunks": b.chunks, "trailers": b.trailers,
+                "expect": b.expect, "same_write": b.same_write})),
         })
     }
     fn from_json(v: &Value) -> Case {
@@ -154,6 +229,17 @@ impl Case {
                 })
                 .unwrap_or_default(),
             h2_concurrent: v.get("h2_concurrent").and_then(|x| x.as_bool()).unwrap_or(false),
+            body: v.get("body").filter(|b| b.is_object()).map(|b| BodySpec {
+                chunked: b["chunked"].as_bool().unwrap_or(false),
+                len: b["len"].as_u64().unwrap_or(0) as usize,
+                chunks: b["chunks"]
+                    .as_array()
+                    .map(|a| a.iter().map(|x| x.as_u64().unwrap_or(1) as usize).collect())
+                    .unwrap_or_default(),
+                trailers: b["trailers"].as_bool().unwrap_or(false),
+                expect: b["expect"].as_bool().unwrap_or(false),
+                same_write: b["same_write"].as_bool().unwrap_or(true),
+            }),
         }
     }
     fn payload(&self) -> Vec<Vec<u8>> {
@@ -168,6 +254,11 @@ const SMALL: usize = 300;
 enum Echo {
     Bytes { pieces: Vec<Vec<u8>>, received: Vec<u8>, eof: bool },
     Summary { sent: usize, recv: usize, mismatch: Option<usize>, eof: bool },
+    /// a handshake with a large request body: `leaked` = bytes received in
+    /// excess of the payload, `leak_ok` = those leading bytes are the last
+    /// `leaked` bytes of the body as it went on the wire, `mismatch` = first
+    /// offset at which what follows them differs from the payload
+    Leak { sent: usize, recv: usize, leaked: usize, leak_ok: bool, mismatch: Option<usize>, eof: bool },
 }
 
 enum Obs {
@@ -196,56 +287,87 @@ enum H2Res {
 
 const PING: &[u8] = b"GET /ping HTTP/1.1\r\nHost: localhost\r\n\r\n";
 
-/// the bytes of the first write: the request, and the first piece of the
-/// payload when it is pipelined
-fn first_write(c: &Case, pieces: &[Vec<u8>]) -> (Vec<u8>, bool) {
+/// The writes that make the handshake: the request head - the case's lines,
+/// then the body's framing fields -, the body in the same or in a second
+/// write, and, when `pipelined`, the first piece of the payload appended to
+/// the last of them.
+fn handshake_writes(c: &Case, pieces: &[Vec<u8>]) -> (Vec<Vec<u8>>, bool) {
     let mut req = b"GET /ws HTTP/1.1\r\nHost: localhost\r\n".to_vec();
-    for (n, v) in &c.headers {
+    let framing = c.body.as_ref().map(|b| b.framing()).unwrap_or_default();
+    for (n, v) in c.headers.iter().chain(framing.iter()) {
         req.extend_from_slice(n);
         req.push(b':');
         req.extend_from_slice(v);
         req.extend_from_slice(b"\r\n");
     }
     req.extend_from_slice(b"\r\n");
+    let mut writes = vec![req];
+    if let Some(b) = &c.body {
+        let wire = b.wire(c.pseed);
+        if b.same_write {
+            writes[0].extend_from_slice(&wire);
+        } else {
+            writes.push(wire);
+        }
+    }
     let mut first_sent = false;
     if c.pipelined && !pieces.is_empty() {
-        req.extend_from_slice(&pieces[0]);
+        writes.last_mut().unwrap().extend_from_slice(&pieces[0]);
         first_sent = true;
     }
-    (req, first_sent)
+    (writes, first_sent)
 }
 
-fn echo_of(pieces: Vec<Vec<u8>>, received: Vec<u8>, eof: bool) -> Echo {
+fn echo_of(c: &Case, pieces: Vec<Vec<u8>>, received: Vec<u8>, eof: bool) -> Echo {
     let total: usize = pieces.iter().map(|p| p.len()).sum();
-    if total <= SMALL && received.len() <= 2 * SMALL {
-        Echo::Bytes { pieces, received, eof }
-    } else {
-        let sent: Vec<u8> = pieces.concat();
-        let mismatch = (0..sent.len().min(received.len())).find(|&i| sent[i] != received[i]);
-        Echo::Summary { sent: sent.len(), recv: received.len(), mismatch, eof }
+    let body_wire = c.body.as_ref().map(|b| b.wire(c.pseed));
+    let small_body = body_wire.as_ref().map(|w| w.len() <= SMALL).unwrap_or(true);
+    if total <= SMALL && small_body && received.len() <= 3 * SMALL {
+        // (the body, when there is one, is in the Coq case byte for byte too)
+        return Echo::Bytes { pieces, received, eof };
+    }
+    let sent: Vec<u8> = pieces.concat();
+    match body_wire {
+        None => {
+            let mismatch = (0..sent.len().min(received.len())).find(|&i| sent[i] != received[i]);
+            Echo::Summary { sent: sent.len(), recv: received.len(), mismatch, eof }
+        }
+        Some(w) => {
+            let leaked = received.len().saturating_sub(sent.len());
+            let leak_ok = leaked <= w.len() && received[..leaked] == w[w.len() - leaked..];
+            let tail = &received[leaked..];
+            let mismatch = (0..sent.len().min(tail.len())).find(|&i| sent[i] != tail[i]);
+            Echo::Leak { sent: sent.len(), recv: received.len(), leaked, leak_ok, mismatch, eof }
+        }
     }
 }
 
 fn run_case(addr: SocketAddr, ctx: &Ctx, c: &Case) -> Obs {
     let before = ctx.entered.load(Ordering::SeqCst);
     let pieces = c.payload();
-    let (req, first_sent) = first_write(c, &pieces);
+    let (writes, first_sent) = handshake_writes(c, &pieces);
     let mut conn = match Conn::open(addr) {
         Ok(c) => c,
         Err(_) => return Obs::Broken(3),
     };
-    if conn.send(&req).is_err() {
-        return Obs::Broken(3);
+    for w in &writes {
+        if conn.send(w).is_err() {
+            return Obs::Broken(3);
+        }
     }
-    let resp = match conn.read_response(false) {
-        Ok(r) => r,
-        Err(ReadErr::Closed(_)) => return Obs::Broken(0),
-        Err(ReadErr::Timeout(_)) => return Obs::Broken(1),
-        Err(ReadErr::Malformed(..)) => return Obs::Broken(2),
+    let resp = loop {
+        match conn.read_response(false) {
+            // an interim "100 Continue" (the request said Expect) is not the answer
+            Ok(r) if r.status == 100 => continue,
+            Ok(r) => break r,
+            Err(ReadErr::Closed(_)) => return Obs::Broken(0),
+            Err(ReadErr::Timeout(_)) => return Obs::Broken(1),
+            Err(ReadErr::Malformed(..)) => return Obs::Broken(2),
+        }
     };
     if resp.status != 101 {
         // is the connection still an HTTP connection?
-        let followup = if first_sent {
+        let followup = if first_sent || c.body.is_some() {
             // the pipelined piece is, to an HTTP server, the start of the next
             // request; do not add a second one (4 = not probed)
             4
@@ -307,7 +429,7 @@ fn run_case(addr: SocketAddr, ctx: &Ctx, c: &Case) -> Obs {
     received.extend_from_slice(&got);
     let eof = eof && write_ok;
     let entered = settle(ctx, before, 1);
-    let echo = echo_of(pieces, received, eof);
+    let echo = echo_of(c, pieces, received, eof);
     Obs::Switched { headers: resp.headers, echo, entered }
 }
 
@@ -463,21 +585,26 @@ async fn tls_read_response(
 async fn run_case_tls(addr: SocketAddr, ctx: &Ctx, c: &Case) -> Obs {
     let before = ctx.entered.load(Ordering::SeqCst);
     let pieces = c.payload();
-    let (req, first_sent) = first_write(c, &pieces);
+    let (writes, first_sent) = handshake_writes(c, &pieces);
     let mut s = match tls_connect(addr).await {
         Some(s) => s,
         None => return Obs::Broken(3),
     };
-    if s.write_all(&req).await.is_err() || s.flush().await.is_err() {
-        return Obs::Broken(3);
+    for w in &writes {
+        if s.write_all(w).await.is_err() || s.flush().await.is_err() {
+            return Obs::Broken(3);
+        }
     }
     let mut buf = vec![];
-    let (status, headers, _body) = match tls_read_response(&mut s, &mut buf).await {
-        Ok(r) => r,
-        Err(HeadErr(k, _)) => return Obs::Broken(k),
+    let (status, headers, _body) = loop {
+        match tls_read_response(&mut s, &mut buf).await {
+            Ok((100, _, _)) => continue,
+            Ok(r) => break r,
+            Err(HeadErr(k, _)) => return Obs::Broken(k),
+        }
     };
     if status != 101 {
-        let followup = if first_sent {
+        let followup = if first_sent || c.body.is_some() {
             4
         } else if s.write_all(PING).await.is_err() || s.flush().await.is_err() {
             1
@@ -537,7 +664,7 @@ async fn run_case_tls(addr: SocketAddr, ctx: &Ctx, c: &Case) -> Obs {
     let (got, eof) = reader.await.unwrap_or((vec![], false));
     received.extend_from_slice(&got);
     let entered = settle(ctx, before, 1);
-    Obs::Switched { headers, echo: echo_of(pieces, received, eof && write_ok), entered }
+    Obs::Switched { headers, echo: echo_of(c, pieces, received, eof && write_ok), entered }
 }
 
 // ------------------------------------------------------------- HTTP/2 client
@@ -804,6 +931,19 @@ fn emit_case(out: &mut dyn Write, group: &'static str, c: &Case, o: &Obs, tags: 
                            "equal": pieces.concat() == *received, "eof": eof}),
                     format!("(EchoBytes {} {} {})", g_list(pieces, |p| g_bytes(p)), g_bytes(received), g_bool(*eof)),
                 ),
+                Echo::Leak { sent, recv, leaked, leak_ok, mismatch, eof } => (
+                    json!({"sent": sent, "received": recv, "leaked_body_bytes": leaked, "leak_is_body_suffix": leak_ok,
+                           "mismatch": mismatch, "eof": eof}),
+                    format!(
+                        "(EchoLeak {} {} {} {} {} {})",
+                        sent,
+                        recv,
+                        leaked,
+                        g_bool(*leak_ok),
+                        g_opt(mismatch, |m| m.to_string()),
+                        g_bool(*eof)
+                    ),
+                ),
                 Echo::Summary { sent, recv, mismatch, eof } => (
                     json!({"sent": sent, "received": recv, "mismatch": mismatch, "eof": eof}),
                     format!(
@@ -834,7 +974,18 @@ fn emit_case(out: &mut dyn Write, group: &'static str, c: &Case, o: &Obs, tags: 
             group,
             case: c.to_json(),
             obs: obs_json,
-            coq: format!("(CHandshake {} {})", wire, obs_coq),
+            coq: match &c.body {
+                None => format!("(CHandshake {} {})", wire, obs_coq),
+                Some(b) => {
+                    let w = b.wire(c.pseed);
+                    let body = if w.len() <= SMALL {
+                        format!("(BodyBytes {})", g_bytes(&w))
+                    } else {
+                        format!("(BodyAbstract {})", w.len())
+                    };
+                    format!("(CHandshakeB {} {} {} {})", wire, g_list(&b.framing(), |(n, v)| g_hdr(n, v)), body, obs_coq)
+                }
+            },
             tags,
             nontrivial,
         },
@@ -912,6 +1063,7 @@ fn good(r: &mut Rng, key: Vec<u8>) -> Case {
         tls: false,
         h2: vec![],
         h2_concurrent: false,
+        body: None,
     }
 }
 
@@ -1061,7 +1213,7 @@ fn gen_cases(o: &Opts) -> Vec<(&'static str, Case, Vec<String>)> {
                     let wrong = (ci != 0) as usize + (ui != 0) as usize + (vi != 0) as usize + (ki != 0) as usize;
                     v.push((
                         "subset-grid",
-                        Case { headers: hs, pseed, pieces, pipelined: false, tls: false, h2: vec![], h2_concurrent: false },
+                        Case { headers: hs, pseed, pieces, pipelined: false, tls: false, h2: vec![], h2_concurrent: false, body: None },
                         vec![format!("wrong-elements:{}", wrong)],
                     ));
                 }
@@ -1110,7 +1262,7 @@ fn gen_cases(o: &Opts) -> Vec<(&'static str, Case, Vec<String>)> {
         r.shuffle(&mut hs);
         tags.push(format!("spelling:{}", if lack_conn { "lacks-connection-token" } else if lack_upg { "lacks-upgrade-token" } else { "has-both" }));
         let (pseed, pieces, pipelined) = small_payload(&mut r);
-        v.push(("spelling", Case { headers: hs, pseed, pieces, pipelined, tls: false, h2: vec![], h2_concurrent: false }, tags));
+        v.push(("spelling", Case { headers: hs, pseed, pieces, pipelined, tls: false, h2: vec![], h2_concurrent: false, body: None }, tags));
     }
     // fixed spellings worth having in every run
     let fixed: Vec<(&str, &str)> = vec![
@@ -1144,7 +1296,7 @@ fn gen_cases(o: &Opts) -> Vec<(&'static str, Case, Vec<String>)> {
             hs[0].1 = b"Upgrade, \x80".to_vec();
         }
         let (pseed, pieces, pipelined) = small_payload(&mut r);
-        v.push(("spelling-fixed", Case { headers: hs, pseed, pieces, pipelined, tls: false, h2: vec![], h2_concurrent: false }, vec!["spelling:fixed".into()]));
+        v.push(("spelling-fixed", Case { headers: hs, pseed, pieces, pipelined, tls: false, h2: vec![], h2_concurrent: false, body: None }, vec!["spelling:fixed".into()]));
     }
     // lists split over several lines
     for (lines, tag) in [
@@ -1161,7 +1313,7 @@ fn gen_cases(o: &Opts) -> Vec<(&'static str, Case, Vec<String>)> {
         hs.push(h("Sec-WebSocket-Version", "13"));
         hs.push(h("Sec-WebSocket-Key", "x3JJHMbDL1EzLkh9GBhXDw=="));
         let (pseed, pieces, pipelined) = small_payload(&mut r);
-        v.push(("spelling-fixed", Case { headers: hs, pseed, pieces, pipelined, tls: false, h2: vec![], h2_concurrent: false }, vec![format!("spelling:{}", tag)]));
+        v.push(("spelling-fixed", Case { headers: hs, pseed, pieces, pipelined, tls: false, h2: vec![], h2_concurrent: false, body: None }, vec![format!("spelling:{}", tag)]));
     }
     // repeated version / key lines (first one counts in the code)
     for (vers, keys) in [
@@ -1180,7 +1332,7 @@ fn gen_cases(o: &Opts) -> Vec<(&'static str, Case, Vec<String>)> {
             hs.push(h("Sec-WebSocket-Key", x));
         }
         let (pseed, pieces, pipelined) = small_payload(&mut r);
-        v.push(("repeated-lines", Case { headers: hs, pseed, pieces, pipelined, tls: false, h2: vec![], h2_concurrent: false }, vec!["repeated-version-or-key".into()]));
+        v.push(("repeated-lines", Case { headers: hs, pseed, pieces, pipelined, tls: false, h2: vec![], h2_concurrent: false, body: None }, vec!["repeated-version-or-key".into()]));
     }
 
     // --- payloads after the upgrade
@@ -1288,7 +1440,7 @@ fn gen_large(o: &Opts) -> Vec<(&'static str, Case, Vec<String>)> {
                     dim: &str,
                     n: usize| {
         let (pieces, pipelined) = pieces.unwrap_or_else(|| (vec![r.below(40), r.below(40)], false));
-        let c = Case { headers, pseed: r.next(), pieces, pipelined, tls, h2: vec![], h2_concurrent: false };
+        let c = Case { headers, pseed: r.next(), pieces, pipelined, tls, h2: vec![], h2_concurrent: false, body: None };
         let mut tags = vec![format!("large:{}:{}", dim, n)];
         if tls {
             tags.push("transport:tls".into());
@@ -1454,6 +1606,77 @@ fn gen_large(o: &Opts) -> Vec<(&'static str, Case, Vec<String>)> {
     v
 }
 
+// ------------------------------------------------- handshakes with a body
+
+/// Conformant handshakes that also carry a request body, and the same shapes
+/// on handshakes that lack an element, followed by the usual payload.
+fn gen_body(o: &Opts) -> Vec<(&'static str, Case, Vec<String>)> {
+    let mut r = Rng::new(o.seed ^ 0xb0d1e5);
+    let cl = |len: usize| BodySpec { chunked: false, len, chunks: vec![], trailers: false, expect: false, same_write: true };
+    let ch = |len: usize, chunks: Vec<usize>, trailers: bool| BodySpec { chunked: true, len, chunks, trailers, expect: false, same_write: true };
+    let mut shapes: Vec<(BodySpec, String)> = vec![
+        (cl(0), "content-length:0".into()),
+        (cl(1), "content-length:1".into()),
+        (cl(5), "content-length:5".into()),
+        (cl(4096), "content-length:4096".into()),
+        (cl(65537), "content-length:65537".into()),
+        (ch(5, vec![5], false), "chunked:one-chunk".into()),
+        (ch(50, vec![10, 20, 5], false), "chunked:several-chunks".into()),
+        (ch(50, vec![10, 20, 5], true), "chunked:trailers".into()),
+        (ch(0, vec![], false), "chunked:empty".into()),
+        (BodySpec { expect: true, ..cl(5) }, "expect-100-continue:content-length".into()),
+        (BodySpec { expect: true, ..ch(7, vec![3], false) }, "expect-100-continue:chunked".into()),
+    ];
+    if o.thorough {
+        for &n in ROUND_SMALL.iter().chain(ROUND_MID).chain([16385usize, 1 << 20].iter()) {
+            shapes.push((cl(n), format!("content-length:{}", n)));
+        }
+        for &k in &[17usize, 257, 4097] {
+            shapes.push((ch(k * 3, vec![3; k], k % 2 == 1), format!("chunked:chunks:{}", k)));
+        }
+        shapes.push((ch(70000, vec![65537], false), "chunked:chunk-of-65537".into()));
+    }
+    let mut v = vec![];
+    let mut i = 0usize;
+    for (shape, name) in &shapes {
+        for same_write in [true, false] {
+            for tls in [false, true] {
+                for lacking in [None, Some(i % 4)] {
+                    i += 1;
+                    // A refusal is read reliably only if the server has taken the
+                    // whole request off the socket before it closes: otherwise its
+                    // close is a TCP reset that can overtake the 400 (seen once in
+                    // a few thousand runs with the body in a later write).  So
+                    // refusals carry at most 4096 body bytes, in the same write.
+                    if lacking.is_some() && (shape.len > 4096 || !same_write) {
+                        continue;
+                    }
+                    let k = b64_key(&mut r);
+                    let mut c = good(&mut r, k);
+                    c.tls = tls;
+                    c.body = Some(BodySpec { same_write, ..shape.clone() });
+                    let mut tags = vec![
+                        format!("body:{}", name),
+                        format!("body:{}", if same_write { "same-write" } else { "later-write" }),
+                    ];
+                    match lacking {
+                        None => tags.push("body:conformant-handshake".into()),
+                        Some(k) => {
+                            c.headers.remove(k);
+                            tags.push("body:handshake-lacking-an-element".into());
+                        }
+                    }
+                    if tls {
+                        tags.push("transport:tls".into());
+                    }
+                    v.push(("body", c, tags));
+                }
+            }
+        }
+    }
+    v
+}
+
 // ------------------------------------------------------------ the HTTP/2 slice
 
 /// Every combination of the websocket elements an HTTP/2 client can send
@@ -1540,6 +1763,7 @@ fn gen_h2(o: &Opts) -> Vec<(&'static str, Case, Vec<String>)> {
                 tls,
                 h2: chunk.iter().map(|&i| reqs[i].0.clone()).collect(),
                 h2_concurrent: concurrent,
+                body: None,
             };
             v.push(("h2", c, tags));
         }
@@ -1552,6 +1776,7 @@ fn gen_h2(o: &Opts) -> Vec<(&'static str, Case, Vec<String>)> {
             tls,
             h2: reqs.iter().map(|(q, _)| q.clone()).collect(),
             h2_concurrent: true,
+            body: None,
         };
         let mut tags = vec![format!("h2:streams-at-once:{}", reqs.len())];
         if tls {
@@ -1634,6 +1859,7 @@ fn main() {
                 let mut v = gen_cases(opts);
                 v.extend(gen_cases_tls(opts));
                 v.extend(gen_h2(opts));
+                v.extend(gen_body(opts));
                 // the large-scope cases are dealt evenly among the others, so
                 // that the driver's contiguous Coq shards share their cost
                 let large = gen_large(opts);
